@@ -119,40 +119,40 @@ def run(ck):
             s = make_state(it, "PositiveWaveFunction")
             return call(it, s, "subspace_vector", VNum("int", T.sym("k"), nonneg=True), api.intsym("n"))
 
-        p = single(paths_of(prog, th2), "subspace_vector")
-        t = p.value.term
-        pc = polarity(t)
-        ck.check(True if pc == DESC else (False if pc == ASC else None), "C19.R1", "subspace_vector:site 0 is the most significant bit", sv.site(),
-                 "bits of the requested index have %s significance from site 0 (expected descending): %r" % (pc, t))
-        ck.check({"k", "n"} <= t.syms(), "C19.R1", "subspace_vector:depends on (num, size)", sv.site(), "the vector does not depend on both the index and the size")
+        for p in returning(paths_of(prog, th2), "subspace_vector"):
+            t = p.value.term
+            pc = polarity(t)
+            ck.check(True if pc == DESC else (False if pc == ASC else None), "C19.R1", "subspace_vector:site 0 is the most significant bit", sv.site(),
+                     "bits of the requested index have %s significance from site 0 (expected descending): %r" % (pc, t))
+            ck.check({"k", "n"} <= t.syms(), "C19.R1", "subspace_vector:depends on (num, size)", sv.site(), "the vector does not depend on both the index and the size")
     with ck.guard("C19.R1", "_convert_basis_element_to_index", conv.site()):
         def th3(it):
             return it.call_function(VFunc(conv), [tens(it, "states", ("B", "n"))], {}, None)
 
-        p = single(paths_of(prog, th3), "convert")
-        t = p.value.term
-        at = t.single_atom()
-        okm = at is not None and isinstance(at, T.App) and at.op == "matmul" and at.args[0] == T.sym("states")
-        ck.check(okm, "C19.R1", "_convert_basis_element_to_index:weighted sum of bits", conv.site(), "index is not states . powers: %r" % (t,))
-        if okm:
-            pw = at.args[1]
-            pp = polarity(pw)
-            ck.check(True if pp == DESC else (False if pp == ASC else None), "C19.R1", "_convert_basis_element_to_index:site 0 has the largest weight", conv.site(),
-                     "powers of two are %s along the sites (expected descending = big-endian): %r" % (pp, pw))
-            pa = pw.single_atom()
-            # exact weights 2^(n-1) ... 2^0
-            want = T.app("pow", T.const(2), T.app("arange", T.sym("n"), T.ZERO, T.const(-1)) - 1)
-            alt = None
-            if pw == want:
-                ck.ok("C19.R1", "_convert_basis_element_to_index:weights 2^(n-1)..2^0", conv.site())
-            elif pa is not None and isinstance(pa, T.App) and pa.op == "pow":
-                e = pa.args[1]
-                if e == T.app("arange", T.sym("n"), T.ZERO, T.const(-1)):
-                    ck.violation("C19.R1", "_convert_basis_element_to_index:weights 2^(n-1)..2^0", conv.site(), "weights run from 2^n to 2^1: every index is doubled")
+        for p in returning(paths_of(prog, th3), "convert"):
+            t = p.value.term
+            at = t.single_atom()
+            okm = at is not None and isinstance(at, T.App) and at.op == "matmul" and at.args[0] == T.sym("states")
+            ck.check(okm, "C19.R1", "_convert_basis_element_to_index:weighted sum of bits", conv.site(), "index is not states . powers: %r" % (t,))
+            if okm:
+                pw = at.args[1]
+                pp = polarity(pw)
+                ck.check(True if pp == DESC else (False if pp == ASC else None), "C19.R1", "_convert_basis_element_to_index:site 0 has the largest weight", conv.site(),
+                         "powers of two are %s along the sites (expected descending = big-endian): %r" % (pp, pw))
+                pa = pw.single_atom()
+                # exact weights 2^(n-1) ... 2^0
+                want = T.app("pow", T.const(2), T.app("arange", T.sym("n"), T.ZERO, T.const(-1)) - 1)
+                alt = None
+                if pw == want:
+                    ck.ok("C19.R1", "_convert_basis_element_to_index:weights 2^(n-1)..2^0", conv.site())
+                elif pa is not None and isinstance(pa, T.App) and pa.op == "pow":
+                    e = pa.args[1]
+                    if e == T.app("arange", T.sym("n"), T.ZERO, T.const(-1)):
+                        ck.violation("C19.R1", "_convert_basis_element_to_index:weights 2^(n-1)..2^0", conv.site(), "weights run from 2^n to 2^1: every index is doubled")
+                    else:
+                        ck.undecided("C19.R1", "_convert_basis_element_to_index:weights 2^(n-1)..2^0", conv.site(), "exponents %r not recognised" % (e,))
                 else:
-                    ck.undecided("C19.R1", "_convert_basis_element_to_index:weights 2^(n-1)..2^0", conv.site(), "exponents %r not recognised" % (e,))
-            else:
-                ck.undecided("C19.R1", "_convert_basis_element_to_index:weights 2^(n-1)..2^0", conv.site(), "powers %r not recognised" % (pw,))
+                    ck.undecided("C19.R1", "_convert_basis_element_to_index:weights 2^(n-1)..2^0", conv.site(), "powers %r not recognised" % (pw,))
     # ------------------------------------------------------------------ R2 size guard
     with ck.guard("C19.R2", "size guard", ghs.site()):
         def th4(it):
@@ -190,35 +190,35 @@ def run(ck):
                 x.not_none = True
             return it.call_function(VFunc(ld), a, {}, None)
 
-        p = single(paths_of(prog, th5), "load_data")
-        it = p.interp
-        items = it.concrete_items(p.value)
-        ck.check(items is not None and len(items) == 4, "C19.R3", "load_data:four results in order", ld.site(), "load_data does not return [samples, target, bases, all bases]")
-        lt = [c for c in it.ext_calls if c[0] == "numpy.loadtxt"]
-        byarg = {}
-        for c in lt:
-            tag = c[1][0].tag if c[1] and isinstance(c[1][0], VUnknown) else "?"
-            dt = c[2].get("dtype")
-            byarg[tag] = dt
-        def dtype_name(v):
-            if isinstance(v, VConst):
-                return v.value
-            if isinstance(v, VExt):
-                return v.name
-            return repr(v)
-        ck.check(dtype_name(byarg.get("samples_path")) == "float32", "C19.R3", "load_data:samples read as float32", ld.site(), "samples are read with dtype %s" % dtype_name(byarg.get("samples_path")))
-        ck.check(dtype_name(byarg.get("psi_path")) == "float32", "C19.R3", "load_data:target read as float32", ld.site(), "target is read with dtype %s" % dtype_name(byarg.get("psi_path")))
-        for k in ("tr_bases_path", "bases_path"):
-            ck.check(dtype_name(byarg.get(k)) == "builtins.str", "C19.R3", "load_data:%s read as str" % k, ld.site(), "bases are read with dtype %s" % dtype_name(byarg.get(k)))
-        if items is not None and len(items) == 4:
-            s_, tg, b1, b2 = items
-            ck.check(isinstance(s_, VTens) and s_.term == T.sym("file(tr_samples_path)") and s_.kind == "tensor", "C19.R3", "load_data:samples tensor", ld.site(), "first result is not the samples file as a tensor")
-            F = T.sym("file(tr_psi_path)")
-            col = lambda k: T.app("index", F, (("slice", None, None, None), k))  # noqa: E731
-            ck.check(isinstance(tg, VTens) and tg.term == T.stack0(col(0), col(1)), "C19.R3", "load_data:target columns (re, im)", ld.site(),
-                     "target is not (column 0 -> real, column 1 -> imaginary): %r" % (getattr(tg, "term", None),))
-            ck.check(isinstance(b1, VTens) and b1.term == T.sym("file(tr_bases_path)") and isinstance(b2, VTens) and b2.term == T.sym("file(bases_path)"), "C19.R3", "load_data:bases order", ld.site(),
-                     "third/fourth results are not (training bases, all bases)")
+        for p in returning(paths_of(prog, th5), "load_data"):
+            it = p.interp
+            items = it.concrete_items(p.value)
+            ck.check(items is not None and len(items) == 4, "C19.R3", "load_data:four results in order", ld.site(), "load_data does not return [samples, target, bases, all bases]")
+            lt = [c for c in it.ext_calls if c[0] == "numpy.loadtxt"]
+            byarg = {}
+            for c in lt:
+                tag = c[1][0].tag if c[1] and isinstance(c[1][0], VUnknown) else "?"
+                dt = c[2].get("dtype")
+                byarg[tag] = dt
+            def dtype_name(v):
+                if isinstance(v, VConst):
+                    return v.value
+                if isinstance(v, VExt):
+                    return v.name
+                return repr(v)
+            ck.check(dtype_name(byarg.get("samples_path")) == "float32", "C19.R3", "load_data:samples read as float32", ld.site(), "samples are read with dtype %s" % dtype_name(byarg.get("samples_path")))
+            ck.check(dtype_name(byarg.get("psi_path")) == "float32", "C19.R3", "load_data:target read as float32", ld.site(), "target is read with dtype %s" % dtype_name(byarg.get("psi_path")))
+            for k in ("tr_bases_path", "bases_path"):
+                ck.check(dtype_name(byarg.get(k)) == "builtins.str", "C19.R3", "load_data:%s read as str" % k, ld.site(), "bases are read with dtype %s" % dtype_name(byarg.get(k)))
+            if items is not None and len(items) == 4:
+                s_, tg, b1, b2 = items
+                ck.check(isinstance(s_, VTens) and s_.term == T.sym("file(tr_samples_path)") and s_.kind == "tensor", "C19.R3", "load_data:samples tensor", ld.site(), "first result is not the samples file as a tensor")
+                F = T.sym("file(tr_psi_path)")
+                col = lambda k: T.app("index", F, (("slice", None, None, None), k))  # noqa: E731
+                ck.check(isinstance(tg, VTens) and tg.term == T.stack0(col(0), col(1)), "C19.R3", "load_data:target columns (re, im)", ld.site(),
+                         "target is not (column 0 -> real, column 1 -> imaginary): %r" % (getattr(tg, "term", None),))
+                ck.check(isinstance(b1, VTens) and b1.term == T.sym("file(tr_bases_path)") and isinstance(b2, VTens) and b2.term == T.sym("file(bases_path)"), "C19.R3", "load_data:bases order", ld.site(),
+                         "third/fourth results are not (training bases, all bases)")
     ldm = prog.func(D, "load_data_DM")
     with ck.guard("C19.R3", "load_data_DM", ldm.site()):
         def mk(names, nones):
@@ -235,17 +235,17 @@ def run(ck):
             return th
 
         names = ["samples_path", "re_path", "im_path", "tr_bases_path", "bases_path"]
-        p = single(paths_of(prog, mk(names, ())), "load_data_DM")
-        items = p.interp.concrete_items(p.value)
-        ok = items is not None and len(items) == 4 and isinstance(items[1], VTens) and items[1].term == T.stack0(T.sym("file(tr_mtx_real_path)"), T.sym("file(tr_mtx_imag_path)"))
-        ck.check(ok, "C19.R3", "load_data_DM:target (re, im)", ldm.site(), "target matrix is not make_complex(real file, imaginary file)")
-        for nones in (("re_path",), ("im_path",)):
-            paths = paths_of(prog, mk(names, nones))
-            ck.check(all(q.outcome == "raise" and q.value.exc_name == "ValueError" for q in paths), "C19.R3", "load_data_DM:refuses only %s missing" % nones[0], ldm.site(),
-                     "a target with only one of the two matrix files is accepted")
-        p = single(paths_of(prog, mk(names, ("re_path", "im_path"))), "load_data_DM/no target")
-        items = p.interp.concrete_items(p.value)
-        ck.check(items is not None and len(items) == 3, "C19.R3", "load_data_DM:no target", ldm.site(), "without matrix files the result is not [samples, bases, all bases]")
+        for p in returning(paths_of(prog, mk(names, ())), "load_data_DM"):
+            items = p.interp.concrete_items(p.value)
+            ok = items is not None and len(items) == 4 and isinstance(items[1], VTens) and items[1].term == T.stack0(T.sym("file(tr_mtx_real_path)"), T.sym("file(tr_mtx_imag_path)"))
+            ck.check(ok, "C19.R3", "load_data_DM:target (re, im)", ldm.site(), "target matrix is not make_complex(real file, imaginary file)")
+            for nones in (("re_path",), ("im_path",)):
+                paths = paths_of(prog, mk(names, nones))
+                ck.check(all(q.outcome == "raise" and q.value.exc_name == "ValueError" for q in paths), "C19.R3", "load_data_DM:refuses only %s missing" % nones[0], ldm.site(),
+                         "a target with only one of the two matrix files is accepted")
+            p = single(paths_of(prog, mk(names, ("re_path", "im_path"))), "load_data_DM/no target")
+            items = p.interp.concrete_items(p.value)
+            ck.check(items is not None and len(items) == 3, "C19.R3", "load_data_DM:no target", ldm.site(), "without matrix files the result is not [samples, bases, all bases]")
     ex = prog.func(D, "extract_refbasis_samples")
     with ck.guard("C19.R3", "extract_refbasis_samples", ex.site()):
         def th6(it):
